@@ -332,5 +332,51 @@ if __name__ == '__main__':
                 continue
             d = kills[k]
             print('- `%s` %s:%d `%s` -> `%s` (ran %s)' % (k, d['file'], d['line'], d['old'][:70], d['new'][:70], ', '.join(c for c, _ in d['log'])))
+    elif cmd == 'rekill-all':
+        # rekill-all <env suffix> <k> <n>: second pass over the mutants the first pass did not kill,
+        # with the current harness and the checks the first pass did not run
+        suffix, k, n = sys.argv[2], int(sys.argv[3]), int(sys.argv[4])
+        EXTRA = [
+            ('macros/', ['C20', 'C05', 'C11', 'C21', 'C08']),
+            ('src/lresult', ['C21']), ('src/lvalue', ['C21']), ('src/lterm', ['C21', 'C11', 'C23']),
+            ('src/compound', ['C21', 'C20']),
+            ('src/operator/conj', ['C05', 'C08', 'C12']), ('src/operator/', ['C05', 'C08', 'C09']),
+            ('src/goal', ['C05', 'C07', 'C09']),
+            ('src/stream', ['C05', 'C06', 'C07', 'C09', 'C10', 'C08']),
+            ('src/state/', ['C16', 'C02', 'C03', 'C19', 'C20', 'C04', 'C24', 'C23']),
+            ('src/relation/clpfd', ['C16', 'C17', 'C04', 'C10']),
+            ('src/relation/clpz', ['C19', 'C10']),
+            ('src/', ['C06', 'C02', 'C23']),
+        ]
+        kills = {}
+        for f in sorted(os.listdir(OUT)):
+            if f.startswith('kill-') and f.endswith('.jsonl'):
+                for l in open(os.path.join(OUT, f)):
+                    d = json.loads(l)
+                    kills[d['id']] = d
+        todo = [d for d in kills.values() if not d['killed_by']]
+        todo.sort(key=lambda d: d['id'])
+        muts = {m['id']: m for m in json.load(open(os.path.join(OUT, 'list.json')))}
+        krepo, kv = '/tmp/krepo' + suffix, '/tmp/kv' + suffix
+        env = dict(os.environ, PVMON_REPO=krepo, PVMON_SKIP_MIRI='1', CARGO_NET_OFFLINE='true')
+        for idx, d in enumerate(todo):
+            if idx % n != k:
+                continue
+            m = muts[d['id']]
+            extra = []
+            for pre, cs in EXTRA:
+                if m['file'].startswith(pre):
+                    extra = cs
+                    break
+            sh('git checkout -q -- .', cwd=krepo)
+            if not apply(krepo, m):
+                continue
+            for c in extra:
+                code, out = sh('./check %s quick 2>&1 | grep -E "verdict=|monitor=|INCONCLUSIVE" | head -3 | cut -c1-300' % c, cwd=kv, timeout=2400, env=env)
+                with open(os.path.join(OUT, 'rekill.jsonl'), 'a') as f:
+                    f.write(json.dumps({'id': m['id'], 'check': c, 'out': out.strip()[:600]}) + '\n')
+                if 'verdict=violated' in out:
+                    break
+        sh('git checkout -q -- .', cwd=krepo)
     elif cmd == 'kill':
         kill(sys.argv[2], int(sys.argv[3]), int(sys.argv[4]), sys.argv[5] if len(sys.argv) > 5 else 'quick')
